@@ -252,7 +252,9 @@ pub struct Case {
 /// generate a program, register it as persistent rules over its EDB; None when the store refuses it
 pub fn setup(ctx: &mut Ctx, r: &mut crate::rng::Rng, k: u64) -> Option<Case> {
     let opts = GenOpts { agg: 0, neg: 25, rec: 30, mutual: 8, arith: 12, cmp: 30, union: 35, bound_query: 0, max_edb: 8, max_idb: 3, ..GenOpts::default() };
-    let p = gen_program(r, &opts);
+    // every 4th program is recursion-heavy: few relations, mostly transitive-closure-like rules
+    let rec_heavy = GenOpts { agg: 0, neg: 10, rec: 80, near_tc: 60, exact_tc: 50, mutual: 0, arith: 0, cmp: 10, union: 10, bound_query: 0, max_edb: 8, max_idb: 2, ..GenOpts::default() };
+    let p = gen_program(r, if k % 4 == 3 { &rec_heavy } else { &opts });
     let model = refdl::evaluate(&p.clauses, &p.edb, true).ok()?;
     let scratch = Scratch::new("c21");
     let h = H::open(&scratch.path, &StoreOpts::default()).ok()?;
@@ -291,8 +293,35 @@ fn run_both(ctx: &mut Ctx, c22: bool) {
         let pf = crate::shrink::features(p).iter().copied().collect::<Vec<_>>().join("+");
         for (rel, ar) in heads_of(p) {
             let vars: Vec<String> = (0..ar).map(|i| format!("V{i}")).collect();
-            let q = format!(".why ?{rel}({})", vars.join(", "));
-            let want = case.model.db.get(&rel).cloned().unwrap_or_default();
+            let full = case.model.db.get(&rel).cloned().unwrap_or_default();
+            let mut variants: Vec<(String, refdl::Rel)> = vec![(format!(".why ?{rel}({})", vars.join(", ")), full.clone())];
+            if !full.is_empty() {
+                // the same request with one argument bound to a constant of an answer tuple (bound queries on
+                // recursive relations go through the engine's demand-driven rewriting): a random tuple and
+                // position, and for recursive relations also the tuple with the deepest derivation at every position
+                let recursive = p.clauses.iter().any(|c| c.head == rel && c.pos_rels().contains(&rel.as_str()));
+                let mut picks: Vec<(Tup, usize)> = vec![(full.iter().nth(r.below(full.len())).cloned().unwrap_or_default(), r.below(ar.max(1)))];
+                if recursive {
+                    if let Some(d) = full.iter().max_by_key(|t| case.model.depth.get(&(rel.clone(), (*t).clone())).copied().unwrap_or(0)) {
+                        for pos in 0..ar.min(2) {
+                            picks.push((d.clone(), pos));
+                        }
+                    }
+                }
+                picks.dedup();
+                for (t, pos) in picks {
+                    if let Some(refdl::V::I(c)) = t.get(pos) {
+                        let mut a = vars.clone();
+                        a[pos] = c.to_string();
+                        let q = format!(".why ?{rel}({})", a.join(", "));
+                        if variants.iter().all(|(x, _)| x != &q) {
+                            variants.push((q, full.iter().filter(|x| x.get(pos) == Some(&refdl::V::I(*c))).cloned().collect()));
+                            ctx.count("bound_why_requests");
+                        }
+                    }
+                }
+            }
+            for (q, want) in variants {
             ctx.eval();
             let rel_clauses: Vec<&Clause> = p.clauses.iter().filter(|c| c.head == rel).collect();
             let rel_features = rel_clauses.iter().map(|c| clause_features(c)).collect::<BTreeSet<_>>().into_iter().collect::<Vec<_>>().join("|");
@@ -392,6 +421,7 @@ fn run_both(ctx: &mut Ctx, c22: bool) {
                         }
                     }
                 }
+            }
             }
         }
         let _ = pf;
